@@ -76,7 +76,8 @@ def random_graphs(U):
 
 @unit("C18", covers=[(GR, "dom_lt"), (GR, "Graph.all_sucs")], level="bounded", params=[{"chunk": c} for c in range(16)], samples=1,
       note="ALL 65536 rooted digraphs on 5 nodes without self-loops and without edges into the entry (an edge into the entry changes no "
-           "dominator; self-loops are covered for n <= 4), 4096 per chunk; thorough: additionally with one edge of each graph as a catch edge")
+           "dominator; self-loops are covered for n <= 4), 4096 per chunk, each also with all edges into one node of in-degree >= 2 as "
+           "catch edges (a handler of several blocks); thorough: additionally with one edge of each graph as a catch edge")
 def five_node_graphs(U, chunk):
     gmod = U.mod(GR)
     U.drawn.update({"chunk": chunk})
@@ -86,6 +87,14 @@ def five_node_graphs(U, chunk):
     for mask in range(chunk, 1 << len(pairs), 16):
         edges = [p for i, p in enumerate(pairs) if mask >> i & 1]
         variants = [()]
+        # a handler: one node all of whose incoming edges are catch edges (several blocks of a try region throw to it)
+        indeg = {}
+        for a, b in edges:
+            indeg[b] = indeg.get(b, 0) + 1
+        multi = sorted(b for b, d in indeg.items() if d >= 2)
+        if multi:
+            h = multi[mask % len(multi)]
+            variants.append(tuple(e for e in edges if e[1] == h))
         if tier != "quick" and edges:
             variants.append((edges[mask % len(edges)],))
         for catch in variants:
@@ -111,7 +120,8 @@ five_node_graphs.conc_timeout = 300
 
 @unit("C18", covers=[(GR, "dom_lt"), (GR, "Graph.all_sucs")], level="bounded", params=[{"chunk": c} for c in range(16)], samples=1,
       note="300 (thorough: 3000) seeded random graphs with 6..40 nodes per chunk (out-degree 0..3 plus a random spanning tree, about one "
-           "edge in ten a catch edge): retreating, cross and irreducible shapes that need more than 5 nodes")
+           "edge in ten a catch edge; every other graph with 1..3 try regions of 2..6 nodes throwing to one handler): retreating, cross "
+           "and irreducible shapes that need more than 5 nodes")
 def medium_random_graphs(U, chunk):
     gmod = U.mod(GR)
     U.drawn.update({"chunk": chunk})
@@ -123,6 +133,17 @@ def medium_random_graphs(U, chunk):
         n = rng.randint(6, 40)
         edges = G.random_graph(rng, n, rng.choice([1, 2, 2, 3]))
         catch = [e for e in edges if rng.random() < 0.1]
+        if k % 2:
+            # try regions: a handler node and 2..6 nodes (a run of consecutive numbers: mostly a path of the spanning tree, entered
+            # from wherever the random edges lead) that all throw to it; handlers may themselves lie in a region
+            for _ in range(rng.randint(1, 3)):
+                h = rng.randrange(1, n)
+                a = rng.randrange(0, n)
+                for v in range(a, min(n, a + rng.randint(2, 6))):
+                    if v != h and (v, h) not in edges:
+                        edges.append((v, h))
+                    if v != h and (v, h) not in catch:
+                        catch.append((v, h))
         g, nodes = G.build(gmod, n, [e for e in edges if e not in catch], catch)
         try:
             res = gmod.dom_lt(g)
